@@ -10,6 +10,15 @@ WT="$(mktemp -d /tmp/xdeps-seed-XXXXXX)"
 rmdir "$WT"
 git -C /repo worktree add -q --detach "$WT" HEAD || exit 2
 trap 'git -C /repo worktree remove --force "$WT" 2>/dev/null; rm -rf "$WT"; git -C /repo worktree prune' EXIT
+# /repo's compiled refs extension is an untracked build product: after a sandbox restore it is the one of the PINNED commit
+# (older than refs.py with its fix: commits).  Rebuild it in place first when it is missing or older than its source.
+SO=$(ls /repo/xdeps/refs.cpython-*.so 2>/dev/null | head -1)
+if [ -z "$SO" ] || [ "$SO" -ot /repo/xdeps/refs.py ]; then
+  ( flock 9; SO=$(ls /repo/xdeps/refs.cpython-*.so 2>/dev/null | head -1)
+    if [ -z "$SO" ] || [ "$SO" -ot /repo/xdeps/refs.py ]; then
+      ( cd /repo && rm -f xdeps/refs.c xdeps/*.so && /venv/bin/python setup.py build_ext --inplace -q >/dev/null 2>&1; rm -rf build )
+    fi ) 9>/tmp/xdeps-repo-build.lock
+fi
 cp /repo/xdeps/*.so "$WT/xdeps/" 2>/dev/null
 PY=/venv/bin/python
 run_demo() { ( cd "$WT" && PYTHONPATH="$WT" timeout 600 $PY "$SEED/demo.py" >/tmp/seed-demo.$$ 2>&1 ); echo $?; }
